@@ -8,6 +8,7 @@ import GivaroModel.Model.PrimesMisc
 import GivaroModel.Model.PrimesContainers
 import GivaroModel.Model.PrimesMR
 import GivaroModel.Model.PrimesErat
+import GivaroModel.Model.PrimesRho
 import GivaroModel.Spec.PrimesSpec
 -- @driver-mode primes Driver.Primes.primesLine
 namespace Driver.Primes
@@ -177,6 +178,18 @@ def primesLine (line : String) : String :=
       | "lehmannb", [n], [v] =>
         let specOk := if n < 2 then v == 0 else if n ≤ 3 then v == 1 else (v == 0 || v == 1)
         primesVerdict line specOk true "-"
+      | "pollards", [n, loops, _seed], k :: rest =>
+        -- Pollard(gen, g, n, loops) right after Integer::seeding(seed), with the start values of the (re)tries recomputed by the harness:
+        -- the rho iteration itself is modelled (Model/PrimesRho.lean) and compared exactly; the specification is that of `pollard`
+        if rest.length != k.toNat + 1 || loops < 0 then "BAD pollards | " ++ line else
+        let ys := rest.take k.toNat
+        let g := rest.getD k.toNat 0
+        let specOk := if n < 3 || primeI n then g == n
+          else if loops == 0 then chkFactor n g
+          else decide (g ≠ 0) && n % g == 0 && decide (1 ≤ g)
+        match pollardStarts ispD 30000000 n loops.toNat ys with
+        | none => if specOk then "PRE" else primesVerdict line false true "-"      -- more retries than start values supplied
+        | some m => primesVerdict line specOk (m == g) (hexInt m)
       | "factorl", [n, loops], [f] =>
         -- factor(r, n, loops): the cascades are deterministic; with loops ≠ 0 the rho search may give up (1 or n) on a cofactor without
         -- prime factor ≤ 97: then only "a positive divisor" is promised (Pollard's guards: n < 3 and primes are returned as they are)
